@@ -40,6 +40,9 @@ properties! {
     "C11" => c11,
     "C12" => c12,
     "C13" => c13,
+    "C14" => c14,
+    "C15" => c15,
+    "C16" => c16,
 }
 
 /// Replay one stored case (a replay/regression JSON written by `Ctx::finish`).
